@@ -625,9 +625,51 @@ fn pp1_case() {
     }
 }
 
+
+/// fbase::PrimeSieve: block c holds exactly the primes of [c 2^16, (c+1) 2^16), increasing; the walk over all 65536
+/// blocks yields pi(2^32) = 203280221 primes and then the empty block for ever
+fn primesieve_case(iters: u64) {
+    let r = catch_unwind(|| {
+        let mut s = yamaquasi::fbase::PrimeSieve::new();
+        let exact = 24u64;
+        let mut total = 0u64;
+        let mut last = 0u64;
+        for c in 0..65536u64 {
+            let blk = s.next().to_vec();
+            let lo = c << 16;
+            for &q in &blk {
+                let q = q as u64;
+                if q <= last && !(c == 0 && total == 0 && q == 2) { return Err(format!("block {c}: {q} after {last} (not increasing)")); }
+                if q < lo || q >= lo + 65536 { return Err(format!("block {c}: element {q} outside [{lo}, {})", lo + 65536)); }
+                last = q;
+                total += 1;
+            }
+            if c < exact || c % 16411 == 7 || c >= 65534 {
+                let want: Vec<u32> = (lo..lo + 65536).filter(|&x| is_prime_td(x)).map(|x| x as u32).collect();
+                if blk != want {
+                    let k = blk.iter().zip(want.iter()).position(|(a, b)| a != b).unwrap_or(blk.len().min(want.len()));
+                    return Err(format!("block {c}: {} primes returned, {} expected; first difference at index {k}: got {:?} want {:?}", blk.len(), want.len(), blk.get(k), want.get(k)));
+                }
+            }
+            if iters < 1000 && c >= exact { return Ok(()); }
+        }
+        if total != 203280221 { return Err(format!("all blocks: {total} primes below 2^32, expected 203280221")); }
+        for _ in 0..3 {
+            if !s.next().is_empty() { return Err("block after the last one is not empty".to_string()); }
+        }
+        Ok(())
+    });
+    match r {
+        Ok(Ok(())) => {}
+        Ok(Err(e)) => fail("primesieve", format!("PrimeSieve: {e}")),
+        Err(_) => fail("primesieve", "PrimeSieve::new / next: panic".to_string()),
+    }
+}
+
 pub fn run(case: &str, rng: &mut Rng, iters: u64) -> bool {
     match case {
         "pp1" => pp1_case(),
+        "primesieve" => primesieve_case(iters),
         "factorapi" => factorapi(rng, iters),
         "rhofail" => rhofail(rng, iters),
         "gcdfactors" => gcdfactors(rng, iters),
